@@ -1,22 +1,32 @@
-(* C04 handlers: in-place edits of a PDU.
+(* C04 handlers: in-place edits of a PDU, byte-level model (Edit/EdBytes.v) with the spec-level
+   model (Edit/EdSpec.v) run alongside.
 
    c04 <proto> <amode> <max> B <type> <code> <mid> { T <bytes> | O <num> <bytes> | D <bytes> }*
                              E { I <num> <bytes> | U <num> <bytes> | R <num> | K <bytes> }*
+                             [ X <mid'> <smax> <bytes> <filter> ]
    c04 <proto> <amode> <max> W <bytes>+
-                             E { ... }*
+                             E { ... }* [ X ... ]
    B: the starting message is built through the API with max_size = <max>;
    W: it is the concatenation of the byte tokens, parsed with coap_pdu_parse, then max_size := <max>.
    <amode> (allocation regime of the C driver) means nothing to the model.
+   X: finally coap_pdu_duplicate with message id <mid'>, a session that allows <smax> bytes,
+      token <bytes> and drop filter <filter> = N (NULL) | - (empty) | n1,n2,...
+   c04x: the same with coap_update_token as pinned (8-bit cast of e_token_length).
 
-   result: start=<rets|P> [dump] { | <0/1> [dump] }* || wire=<bytes> reparse=[dump]          *)
+   result: start=<rets|P> [dump] b=<buffer> <rp> { | <0/1> [dump] b=<buffer> <rp> }*
+           [ || dup=NULL | dup=[dump] b=<buffer> <rp> ] || wire=<bytes> reparse=[dump]
+   <rp> = "rp==" when header + buffer parse back to the message just dumped (type / message id
+   aside on the reliable framings), else rp=[what they parse to | REJECT]
+   The spec-level model runs on the same edits; " SPECDIFF@<i>" is appended to a step whose
+   byte-level result is not the spec-level one (the refinement theorem says: never). *)
 open Model
 open Util
 
-let rec split_at_e acc toks =
+let rec split_at acc key toks =
   match toks with
   | [] -> (List.rev acc, [])
-  | "E" :: tl -> (List.rev acc, tl)
-  | x :: tl -> split_at_e (x :: acc) tl
+  | x :: tl when x = key -> (List.rev acc, tl)
+  | x :: tl -> split_at (x :: acc) key tl
 
 let rec build_ops toks =
   match toks with
@@ -35,43 +45,120 @@ let rec edit_ops toks =
   | "K" :: b :: tl -> EdToken (bytes_of_tok b) :: edit_ops tl
   | _ -> failwith "bad edit op"
 
-let area_size (m : msg) : int =
-  List.length (token_area m.m_token) + List.length (content_area m)
+let cur_proto = ref UDP
 
-let c04 toks =
+(* type and message id are not carried by the reliable framings *)
+let from_code (d : string) : string =
+  if !cur_proto = UDP then d
+  else
+    let rec find i = if i + 3 > String.length d then 0
+      else if String.sub d i 3 = " k=" then i else find (i + 1) in
+    let i = find 0 in String.sub d i (String.length d - i)
+
+(* accessor dump, buffer, and whether header + buffer parse back to the same message *)
+let dump_b (p : ed_bpdu) : string =
+  match ed_abs p with
+  | None -> "[STUCK] b=" ^ hex_of_bytes p.eb_buf
+  | Some m ->
+      let mine = dump_msg m in
+      let rp =
+        match parse !cur_proto (header !cur_proto m @ p.eb_buf) with
+        | None -> "rp=[REJECT]"
+        | Some m' ->
+            let theirs = dump_msg m' in
+            if m'.m_code = m.m_code && from_code mine = from_code theirs then "rp=="
+            else Printf.sprintf "rp=[%s]" theirs in
+      Printf.sprintf "[%s] b=%s %s" mine (hex_of_bytes p.eb_buf) rp
+
+let same_as_spec (p : ed_bpdu) (q : pdu) : bool =
+  match ed_abs p with
+  | None -> false
+  | Some m -> m = q.p_msg && p.eb_max = q.p_max
+
+let filter_of s =
+  if s = "N" then None
+  else if s = "-" then Some []
+  else Some (List.map zi (String.split_on_char ',' s))
+
+let c04_gen cast8 toks =
   match toks with
   | pr :: _amode :: mx :: kind :: rest ->
       let pr = proto_of_string pr in
+      cur_proto := pr;
       let mxi = int_of_string mx in
-      let start_toks, edit_toks = split_at_e [] rest in
+      let start_toks, rest2 = split_at [] "E" rest in
+      let edit_toks, dup_toks = split_at [] "X" rest2 in
       let start =
         match kind, start_toks with
         | "B", ty :: code :: mid :: ops ->
             let p0 = pdu_init (zi ty) (zi code) (zi mid) (zi mx) in
-            let rets, p = run_ops p0 (build_ops ops) in
+            let rets, q = run_ops p0 (build_ops ops) in
             let rs = String.concat "" (List.map (fun b -> if b then "1" else "0") rets) in
-            Ok ((if rs = "" then "-" else rs), p)
+            Ok ((if rs = "" then "-" else rs), ed_of_pdu q, q)
         | "W", parts ->
             let bs = List.concat (List.map bytes_of_tok parts) in
-            (match ed_start_wire pr bs (zi mx) with
-             | None -> Error "REJECT"
-             | Some p -> if mxi <> 0 && area_size p.p_msg > mxi then Error "TOOSMALL" else Ok ("P", p))
+            (match ed_b_start_wire pr bs (zi mx), ed_start_wire pr bs (zi mx) with
+             | Some p, Some q ->
+                 if mxi <> 0 && List.length p.eb_buf > mxi then Error "TOOSMALL" else Ok ("P", p, q)
+             | None, None -> Error "REJECT"
+             | _ -> Error "MODEL-INCONSISTENT")
         | _ -> failwith "c04 start" in
       (match start with
        | Error s -> "start=" ^ s
-       | Ok (tag, p0) ->
+       | Ok (tag, p0, q0) ->
            let b = Buffer.create 1024 in
-           Buffer.add_string b (Printf.sprintf "start=%s [%s]" tag (dump_msg p0.p_msg));
-           let p = ref p0 in
+           Buffer.add_string b (Printf.sprintf "start=%s %s" tag (dump_b p0));
+           if not (same_as_spec p0 q0) then Buffer.add_string b " SPECDIFF@start";
+           let p = ref p0 and q = ref q0 and stuck = ref false and i = ref 0 in
            List.iter (fun e ->
-               let r, p1 = ed_apply !p e in
-               p := p1;
-               Buffer.add_string b (Printf.sprintf " | %d [%s]" (if r then 1 else 0) (dump_msg p1.p_msg)))
+               incr i;
+               if not !stuck then begin
+                 let rb =
+                   match e with
+                   | EdToken t when cast8 -> ed_b_token_cast8 !p t
+                   | _ -> ed_b_apply !p e in
+                 match rb with
+                 | None -> stuck := true; Buffer.add_string b " | STUCK"
+                 | Some (r, p1) ->
+                     let rq, q1 = ed_apply !q e in
+                     p := p1; q := q1;
+                     Buffer.add_string b (Printf.sprintf " | %d %s" (if r then 1 else 0) (dump_b p1));
+                     if r <> rq || not (same_as_spec p1 q1) then
+                       Buffer.add_string b (Printf.sprintf " SPECDIFF@%d" !i)
+               end)
              (edit_ops edit_toks);
-           let wire = serialize pr !p.p_msg in
-           Buffer.add_string b (Printf.sprintf " || wire=%s reparse=[%s]" (hex_of_bytes wire)
-                                  (dump_parse (parse pr wire)));
+           (match dup_toks with
+            | [mid'; smax; tok; flt] when not !stuck ->
+                let t = bytes_of_tok tok and f = filter_of flt in
+                (match ed_b_dup !p (zi mid') (zi smax) t f with
+                 | None -> Buffer.add_string b " || dup=STUCK"
+                 | Some None ->
+                     Buffer.add_string b " || dup=NULL";
+                     if ed_dup !q (zi mid') (zi smax) t f <> None then
+                       Buffer.add_string b " SPECDIFF@dup"
+                 | Some (Some d) ->
+                     Buffer.add_string b (" || dup=" ^ dump_b d);
+                     (match ed_dup !q (zi mid') (zi smax) t f with
+                      | Some dq when same_as_spec d dq -> ()
+                      | _ -> Buffer.add_string b " SPECDIFF@dup"))
+            | [] -> ()
+            | _ -> if not !stuck then failwith "c04 dup args");
+           (match ed_abs !p with
+            | None -> Buffer.add_string b " || wire=STUCK reparse=[]"
+            | Some m ->
+                let wire = header pr m @ !p.eb_buf in
+                Buffer.add_string b (Printf.sprintf " || wire=%s reparse=[%s]" (hex_of_bytes wire)
+                                       (dump_parse (parse pr wire))));
            Buffer.contents b)
   | _ -> failwith "c04 args"
 
-let () = register "c04" c04
+(* resize <alloc_size> <max_size> <size> : coap_pdu_check_resize -> <0/1> <new alloc_size> *)
+let resize toks =
+  match toks with
+  | [a; m; sz] ->
+      (match ed_check_resize (zi a) (zi m) (zi sz) with
+       | None -> "STUCK"
+       | Some (r, a') -> Printf.sprintf "%d %d" (if r then 1 else 0) (int_of_z a'))
+  | _ -> failwith "resize args"
+
+let () = register "c04" (c04_gen false); register "c04x" (c04_gen true); register "resize" resize
